@@ -32,6 +32,8 @@ MAP = [
     ('erase() constructed shifted non-trivial objects on top of objects that were still alive', 'C06'),
     ('block size was under-estimated when plain/FixedSize parameters follow a low-aligned VaryingSize', 'C02'),
     ('memcmp comparison fast paths ignored differing FixedSize counts', 'C13'),
+    ('default-initialised vectors with FixedSize parameters had indeterminate fixed sizes', 'C18'),
+    ('whole-buffer comparison ignored the element count of vectors with zero-sized elements', 'C13'),
 ]
 
 ROOT = os.path.dirname(os.path.dirname(os.path.abspath(__file__)))
